@@ -367,7 +367,7 @@ func runC11(c *fw.Ctx) {
 		}
 	})
 	// random multi-fault sequences
-	nm := c.Pick(500, 10000)
+	nm := c.Pick(500, 40000)
 	c.Cases(nm, func(i int) string { return fmt.Sprintf("multi|i=%d", i) }, func(i int, k *fw.K) {
 		r := k.RNG
 		ci := r.IntN(nconf)
@@ -382,7 +382,7 @@ func runC11(c *fw.Ctx) {
 		}
 	})
 	// mobile bindings slice
-	nmo := c.Pick(60, 600)
+	nmo := c.Pick(60, 2400)
 	c.Cases(nmo, func(i int) string { return fmt.Sprintf("mobile|i=%d", i) }, func(i int, k *fw.K) {
 		r := k.RNG
 		ci := r.IntN(nconf)
